@@ -18,6 +18,7 @@
     an atomic access to a freed record. *)
 From Coq Require Import ZArith List String Bool.
 From LV Require Import Base.Conc Base.Events Base.Lin Model.FcKernel Proofs.FcKernelProofs Proofs.FcContainers.
+From LV Require Import Model.FcKernelWake Proofs.FcWakeThms.
 Import ListNotations.
 Local Open Scope string_scope.
 
@@ -150,3 +151,94 @@ Example C23_nonvacuous :
   List.length (filter (is_ev "ret") (fst r)) = 4%nat /\
   has_lost (fst r) = false.
 Proof. vm_compute. repeat split; reflexivity. Qed.
+
+(** *** wait strategies whose wakeup() calls kernel::wakeup_any(), and kernel::invoke_exclusive
+
+    Model LV.Model.FcKernelWake: the kernel above (compact_list of the current tree) with
+      [wk = true]:   a wait strategy of the condition-variable kind (wait_strategy::single_mutex_multi_condvar /
+                     multi_mutex_multi_condvar): wait() loads the request word, wakeup() calls fc.wakeup_any(),
+                     which walks the publication list from m_pHead;  [wk = false]: wait_strategy::backoff;
+      [wkin = true]: wait_for_combining and invoke_exclusive call m_waitStrategy.wakeup( *this ) BEFORE they
+                     release the combiner lock (the current tree, commit 958e254);
+      [wkin = false]: after the unlock (the tree before that commit).
+    Client programs ([wop]): requests through combine / batch_combine, thread exit, invoke_exclusive (spin lock
+    m_Mutex.lock(), empty functor).  Quantifiers as above: any number of threads, any programs, EVERY schedule,
+    any loop fuel, compact-factor mask and combine pass count.  Proofs: LV.Proofs.FcWakeProofs / FcWakeFree /
+    FcWakeThms (the invariants and step lemmas of parts A and C re-used unchanged). *)
+
+(** one combiner at a time: both orders of the wakeup *)
+Theorem C23_fc_wake_single_combiner :
+  forall (wk wkin : bool) (fuel mask npass : nat) (ths : list (list wop)) c,
+    wops_ok ths -> Conc.reach (cntw_init_cfg wk wkin fuel mask npass ths) c ->
+    exists h, mon None (Conc.trace c) = Some h.
+Proof. exact fc_wake_single_combiner. Qed.
+Print Assumptions C23_fc_wake_single_combiner.
+
+(** exactly once, wakeup inside the lock *)
+Theorem C23_fc_wake_exactly_once_mutex :
+  forall (wk : bool) (fuel mask npass : nat) (ths : list (list wop)) c,
+    wops_ok ths -> wpasses_ok npass ths -> Conc.reach (cntw_init_cfg wk true fuel mask npass ths) c ->
+    lp_valid CountSpec (cnt_annot (Conc.trace c)).
+Proof. exact fc_wake_exactly_once. Qed.
+Print Assumptions C23_fc_wake_exactly_once_mutex.
+
+Theorem C23_fc_wake_never_released_unanswered :
+  forall (wk : bool) (fuel mask npass : nat) (ths : list (list wop)) c,
+    wops_ok ths -> wpasses_ok npass ths -> Conc.reach (cntw_init_cfg wk true fuel mask npass ths) c ->
+    has_lost (Conc.trace c) = false.
+Proof. exact fc_wake_never_released_unanswered. Qed.
+Print Assumptions C23_fc_wake_never_released_unanswered.
+
+(** exactly once on every trace without the "lost" marker, both orders of the wakeup *)
+Theorem C23_fc_wake_exactly_once_mutex_if_not_lost :
+  forall (wk wkin : bool) (fuel mask npass : nat) (ths : list (list wop)) c,
+    wops_ok ths -> Conc.reach (cntw_init_cfg wk wkin fuel mask npass ths) c ->
+    has_lost (Conc.trace c) = false -> lp_valid CountSpec (cnt_annot (Conc.trace c)).
+Proof. exact fc_wake_exactly_once_partA. Qed.
+Print Assumptions C23_fc_wake_exactly_once_mutex_if_not_lost.
+
+(** records are not used after they were freed: the walk of wakeup_any() happens under the combiner lock, and
+    compact_list - the only code that frees a record - needs the same lock *)
+Theorem C23_fc_wake_records_not_used_after_free :
+  forall (wk : bool) (fuel mask npass : nat) (ths : list (list wop)) c,
+    wops_ok ths -> wpasses_ok npass ths -> Conc.reach (cntw_init_cfg wk true fuel mask npass ths) c ->
+    has_uaf (Conc.trace c) = false.
+Proof. exact fc_wake_records_not_used_after_free. Qed.
+Print Assumptions C23_fc_wake_records_not_used_after_free.
+
+Corollary C23_fc_wake_records_not_used_after_free_npass :
+  forall (wk : bool) (fuel mask npass : nat) (ths : list (list wop)) c,
+    1 <= npass -> wops_ok ths -> Conc.reach (cntw_init_cfg wk true fuel mask npass ths) c ->
+    has_uaf (Conc.trace c) = false.
+Proof. intros wk fuel mask npass ths c Hn Hok Hr. exact (fc_wake_records_not_used_after_free wk fuel mask npass ths c Hok (wpasses_ok_pos npass ths Hn) Hr). Qed.
+
+(** Before commit 958e254 ([wkin = false]) the statement is FALSE: a requester that finds its request answered
+    after winning try_lock in wait_for_combining unlocks and then walks the publication list in wakeup_any();
+    meanwhile another combiner's compact_list unlinks and frees the record of an exited thread the walker is
+    about to read (witness: [wake_witness_ths] under [wake_witness_sched] in LV.Proofs.FcWakeThms; the same case
+    is corpus/C23/uaf_wakeup_any_after_unlock.json, replayed on the real code by checks/C23.py: ASan reports
+    heap-use-after-free in wait_for_combining on the tree before the commit). *)
+Theorem C23_fc_records_not_used_after_free_wakeup_outside_lock_refuted :
+  exists (ths : list (list wop)) c,
+    wops_ok ths /\ wpasses_ok 1 ths /\ Conc.reach (cntw_init_cfg true false 400 0 1 ths) c /\
+    has_uaf (Conc.trace c) = true.
+Proof. exact fc_wake_records_not_used_after_free_wakeup_outside_lock_refuted. Qed.
+Print Assumptions C23_fc_records_not_used_after_free_wakeup_outside_lock_refuted.
+
+(** the same programs and schedule on the current code: no access after free, nothing lost, all four requests
+    executed, both exited threads' records freed *)
+Example C23_wake_same_schedule_after_fix :
+  let c := fst (Conc.run 2000 0 wake_witness_sched (cntw_init_cfg true true 400 0 1 wake_witness_ths)) in
+  has_uaf (Conc.trace c) = false /\ has_lost (Conc.trace c) = false /\
+  List.length (filter (is_ev "exec") (Conc.trace c)) = 4%nat /\
+  List.length (filter (is_ev "free") (Conc.trace c)) = 2%nat.
+Proof. exact fc_wake_same_schedule_after_fix. Qed.
+
+(** non-vacuity: invoke_exclusive by a thread with and by a thread without a publication record, contended lock *)
+Example C23_wake_excl_nonvacuous :
+  let c := fst (Conc.run 2000 0 (repeat 0 13 ++ repeat 1 8 ++ repeat 0 60 ++ repeat 1 50)%list
+                  (cntw_init_cfg true true 400 0 1 [[WReq false op_single 0%Z; WExcl]; [WExcl; WReq false op_single 1%Z]])) in
+  has_uaf (Conc.trace c) = false /\ has_lost (Conc.trace c) = false /\
+  List.length (filter (is_ev "excldone") (Conc.trace c)) = 2%nat /\
+  List.length (filter (is_ev "exec") (Conc.trace c)) = 2%nat.
+Proof. exact fc_wake_excl_nonvacuous. Qed.
